@@ -5,7 +5,11 @@ import os
 import sys
 import traceback
 
+import logging
+
 import common
+
+logging.disable(logging.CRITICAL)
 
 
 def setup():
